@@ -2,6 +2,7 @@ package c07
 
 import (
 	"bufio"
+	"bytes"
 	"crypto/sha256"
 	"encoding/hex"
 	"encoding/json"
@@ -14,6 +15,7 @@ import (
 	"sync"
 	"testing"
 
+	"github.com/piotrnar/gocoin/lib/btc"
 	"pgregory.net/rapid"
 	"verif/env"
 	"verif/pbt"
@@ -46,7 +48,7 @@ func TestMain(m *testing.M) {
 		childMain(mode)
 		return
 	}
-	for _, name := range []string{"crash_workloads", "reorg_after_snapshot", "truncate_workloads"} {
+	for _, name := range []string{"crash_workloads", "reorg_after_snapshot", "failed_reorg_unflushed", "truncate_workloads"} {
 		pbt.RegisterReplay(name, replayCase)
 	}
 	pbt.RegisterReplay("crash", replayCase)
@@ -276,7 +278,35 @@ func recoverAndCheck(c Case, dir, logfn string) (res verdict) {
 		res.Err = fmt.Sprintf("after feeding the remaining blocks (tip %s) the unspent-output set differs from the replay:\n%s", tip2.Describe(), d)
 		return
 	}
+	// 5. a clean shutdown and a second restart reproduce that state, and every block of the active chain can be
+	// read back from the block files byte for byte
+	mark(5)
 	node.Close()
+	node2, err := env.Open(dir, ms.P, c.opts())
+	if err != nil {
+		res.Err = "second restart (after a clean shutdown) failed: " + err.Error()
+		return
+	}
+	if h3, height3 := node2.Tip(); h3 != h2 {
+		res.Err = fmt.Sprintf("clean shutdown at tip %s, after the restart the tip is %x (height %d)", tip2.Describe(), h3[:6], height3)
+		return
+	}
+	if d := env.DiffEntries(node2.DumpUTXO(), env.EntriesOf(tip2.View)); d != "" {
+		res.Err = fmt.Sprintf("after a clean shutdown and restart at tip %s the unspent-output set differs from the replay:\n%s", tip2.Describe(), d)
+		return
+	}
+	for n, cnt := tip2, 0; n != nil && n.Parent != nil && cnt < 60; n, cnt = n.Parent, cnt+1 {
+		data, _, e := node2.Ch.Blocks.BlockGet(btc.NewUint256(n.Idx.Hash[:]))
+		if e != nil {
+			res.Err = fmt.Sprintf("block %s of the active chain cannot be read back after the restart: %v", n.Describe(), e)
+			return
+		}
+		if !bytes.Equal(data, n.Raw) {
+			res.Err = fmt.Sprintf("block %s of the active chain reads back different bytes after the restart (%d bytes, stored %d)", n.Describe(), len(data), len(n.Raw))
+			return
+		}
+	}
+	node2.Close()
 	res.OK = true
 	return
 }
@@ -429,6 +459,9 @@ func executeOpt(c Case, wantTrace, noClose bool) (r runResult) {
 		if r.v.Stage >= 4 {
 			what = "feeding the remaining blocks after the restart"
 		}
+		if r.v.Stage >= 5 {
+			what = "the second restart / reading the stored blocks back"
+		}
 		r.viol = fmt.Sprintf("%s killed the process (rc=%d, stage %d): %s", what, rc2, r.v.Stage, tail(out2))
 		return
 	}
@@ -497,6 +530,23 @@ func enumerate(c Case, d *pbt.Direct, limit int) (fail *Case, err error) {
 		points = sel
 	}
 	key := caseKey(c)
+	// F13 can only bite once a reorganisation has begun to rewrite undo files after a snapshot: crash points that
+	// come after the first undone block of a workload in the F13 class
+	firstUndo := -1
+	for i, name := range tr.trace {
+		if name == "utxo.undoblock.done" {
+			firstUndo = i
+			break
+		}
+	}
+	order := map[string]int{}
+	{
+		cnt := map[string]int{}
+		for i, name := range tr.trace {
+			cnt[name]++
+			order[fmt.Sprintf("%s#%d", name, cnt[name])] = i
+		}
+	}
 	for _, pt := range points {
 		cc := c
 		cc.Crash = pt
@@ -509,7 +559,7 @@ func enumerate(c Case, d *pbt.Direct, limit int) (fail *Case, err error) {
 			d.Eval("point/"+name, true, key+"/"+pt, map[string]any{"workload": key, "crash_at": pt, "ops": len(c.Sim.Ops), "recovered_height": r.v.TipHeight, "in_flight_step": r.v.InFlight})
 		}
 		if r.viol != "" {
-			if inF13Class(c) && pbt.FindingOpen("F13-undo-files-by-height") && r.v.Stage >= 3 {
+			if inF13Class(c) && firstUndo >= 0 && order[pt] > firstUndo && pbt.FindingOpen("F13-undo-files-by-height") {
 				if d != nil {
 					d.Excluded("F13-undo-files-by-height")
 				}
@@ -570,6 +620,77 @@ func genReorgAfterSnapshot(t *rapid.T) Case {
 	c.CompressUTXO = rapid.IntRange(0, 3).Draw(t, "cutxo") == 0
 	c.CompressBlocks = rapid.Bool().Draw(t, "cblocks")
 	return c
+}
+
+// Directed workloads for a second narrow window: a heavier side branch whose blocks are still in the block
+// store's write queue fails to connect (its blocks are dropped from the queue's index), more blocks arrive on
+// the old branch, and only then the queue is flushed, a snapshot is written and the node shuts down or dies.
+func genFailedReorgUnflushed(t *rapid.T) Case {
+	c := Case{}
+	c.Sim.Params = sim.ParamSpec{BIP34: 1, BIP65: 1, BIP66: 1, CSV: 1, Segwit: 1, Taproot: 1, Prefix: rapid.SampledFrom([]int{101, 102, 104}).Draw(t, "prefix")}
+	blk := func(parent int, viol string) sim.Op {
+		op := sim.GenOp(t, sim.Profile{MaxTx: 3})
+		op.Kind, op.Parent, op.Viol, op.Hold = "block", parent, viol, false
+		return op
+	}
+	k := rapid.IntRange(1, 3).Draw(t, "main")
+	for i := 0; i < k; i++ {
+		c.Sim.Ops = append(c.Sim.Ops, blk(-1, ""))
+	}
+	if rapid.Bool().Draw(t, "flush-first") {
+		c.Sim.Ops = append(c.Sim.Ops, sim.Op{Kind: "idle", Arg: 1})
+	}
+	// side branch from below the tip; one of its first blocks fails at connect; it grows until it is heavier
+	depth := rapid.IntRange(1, k).Draw(t, "depth")
+	badAt := rapid.IntRange(0, depth).Draw(t, "bad-at")
+	viol := rapid.SampledFrom([]string{"bad_script", "missing_txid", "in_below_out", "dup_in_block"}).Draw(t, "viol")
+	for i := 0; i <= depth; i++ {
+		parent := -2
+		if i == 0 {
+			parent = depth
+		}
+		v := ""
+		if i == badAt {
+			v = viol
+		}
+		c.Sim.Ops = append(c.Sim.Ops, blk(parent, v))
+	}
+	for i, n := 0, rapid.IntRange(1, 3).Draw(t, "after"); i < n; i++ {
+		c.Sim.Ops = append(c.Sim.Ops, blk(-1, ""))
+	}
+	if rapid.IntRange(0, 2).Draw(t, "snapshot") != 0 {
+		c.Sim.Ops = append(c.Sim.Ops, sim.Op{Kind: "idle", Arg: rapid.IntRange(0, 1).Draw(t, "wait")})
+		if rapid.Bool().Draw(t, "one-more") {
+			c.Sim.Ops = append(c.Sim.Ops, blk(-1, ""))
+		}
+	}
+	c.CompressUTXO = rapid.IntRange(0, 3).Draw(t, "cutxo") == 0
+	c.CompressBlocks = rapid.Bool().Draw(t, "cblocks")
+	return c
+}
+
+func TestCrashFailedReorgUnflushed(t *testing.T) {
+	limit := 100
+	if pbt.Tier() == "thorough" {
+		limit = 600
+	}
+	d := pbt.Direct{Name: "crash_failed_reorg"}
+	pbt.Check(t, pbt.Cfg{Name: "failed_reorg_unflushed", Quick: 16, Thorough: 800}, func(r *pbt.Run) {
+		c := genFailedReorgUnflushed(r.T)
+		r.Case(c)
+		r.Class("failed-reorg-with-unflushed-side-blocks")
+		r.NonTrivial()
+		fail, err := enumerate(c, &d, limit)
+		if err != nil {
+			if fail != nil {
+				r.Case(*fail)
+			}
+			if strings.HasPrefix(err.Error(), "infrastructure") {
+				r.T.Skip(err.Error())
+			}
+			r.Failf("%v", err)
+		}
+	})
 }
 
 func TestCrashReorgAfterSnapshot(t *testing.T) {
